@@ -691,3 +691,138 @@ func (n nolog) WithError(error) biolog.LoggerInterface          { return n }
 
 // Quiet replaces bio-rd's logger by a discarding one.
 func Quiet() { biolog.SetLogger(nolog{}) }
+
+// PanicSite extracts, from a stack dump taken in a deferred recover, the innermost bio-rd function that panicked.
+func PanicSite(stack []byte) string {
+	lines := strings.Split(string(stack), "\n")
+	past := false
+	for _, l := range lines {
+		if strings.HasPrefix(l, "panic(") {
+			past = true
+			continue
+		}
+		if past && strings.HasPrefix(l, "github.com/bio-routing/bio-rd/") {
+			fn := l
+			if i := strings.LastIndex(fn, "("); i > 0 {
+				fn = fn[:i]
+			}
+			if i := strings.LastIndex(fn, "/"); i >= 0 {
+				fn = fn[i+1:]
+			}
+			return fn
+		}
+	}
+	return "?"
+}
+
+// SplitSegs cuts segments into pieces of at most 255 ASNs (what a correct encoder does).
+func SplitSegs(in []wire.Segment) []wire.Segment {
+	var out []wire.Segment
+	for _, s := range in {
+		a := s.ASNs
+		for len(a) > 255 {
+			out = append(out, wire.Segment{Type: s.Type, ASNs: a[:255]})
+			a = a[255:]
+		}
+		out = append(out, wire.Segment{Type: s.Type, ASNs: a})
+	}
+	return out
+}
+
+// ReferenceAttrs is the attribute list a correct speaker would put on the wire for the spec on such a
+// session (without NLRI inside MP_REACH_NLRI): used to measure the true size of an attribute block with
+// the independent codec.
+func ReferenceAttrs(p *PathSpec, s Sess) *wire.PathAttrs {
+	a := &wire.PathAttrs{Origin: wire.U8(p.Origin), HasASPath: true, ASPath: SplitSegs(p.ExpectedASPath())}
+	nh := ip(p.V6, p.NextHop).Bytes()
+	if s.MP {
+		fam := wire.IPv4Unicast
+		if s.V6 {
+			fam = wire.IPv6Unicast
+		}
+		a.MPReach = &wire.MPReach{Family: fam, NextHop: nh}
+	} else {
+		a.NextHop = nh
+	}
+	if p.MED != 0 {
+		a.MED = wire.U32(p.MED)
+	}
+	if s.IBGP {
+		a.LocalPref = wire.U32(p.LocalPref)
+	}
+	a.AtomicAggregate = p.Atomic
+	if p.Aggr != nil {
+		a.Aggregator = &wire.Aggregator{AS: p.Aggr[0], Addr: [4]byte{byte(p.Aggr[1] >> 24), byte(p.Aggr[1] >> 16), byte(p.Aggr[1] >> 8), byte(p.Aggr[1])}}
+	}
+	if len(p.Comms) > 0 {
+		a.Communities = p.Comms
+	}
+	for _, c := range p.LComms {
+		a.LargeCommunities = append(a.LargeCommunities, wire.LargeCommunity{Global: c[0], Local1: c[1], Local2: c[2]})
+	}
+	if s.RR {
+		a.OriginatorID = wire.U32(p.OrigID)
+		if len(p.Cluster) > 0 {
+			a.ClusterList = p.Cluster
+		}
+	}
+	for _, u := range p.Unknown {
+		v, _ := hex.DecodeString(u.Value)
+		fl := uint8(wire.FlagTransitive)
+		if u.Optional {
+			fl |= wire.FlagOptional
+		}
+		if u.Partial {
+			fl |= wire.FlagPartial
+		}
+		a.Unknown = append(a.Unknown, wire.Attr{Flags: fl, Type: u.Type, Value: v})
+	}
+	return a
+}
+
+// AttrBytes is the encoded size of an attribute list.
+func AttrBytes(as []wire.Attr) int {
+	n := 0
+	for _, a := range as {
+		n += len(a.Encode())
+	}
+	return n
+}
+
+// Pfxs builds n distinct canonical prefixes of one family with mixed lengths, a pure function of
+// (v4, n, mode, seed). mode: "mixed" (all NLRI sizes), "short" (/13../16), "host" (/32 or /128).
+func Pfxs(v4 bool, n int, mode string, seed uint64) []gen.P {
+	w := 128
+	if v4 {
+		w = 32
+	}
+	x := seed | 1
+	next := func() uint64 { // splitmix64
+		x += 0x9e3779b97f4a7c15
+		z := x
+		z = (z ^ (z >> 30)) * 0xbf58476d1ce4e5b9
+		z = (z ^ (z >> 27)) * 0x94d049bb133111eb
+		return z ^ (z >> 31)
+	}
+	out := make([]gen.P, 0, n)
+	for i := 0; i < n; i++ {
+		l := w
+		switch mode {
+		case "short":
+			l = 13 + int(next()%4)
+		case "host":
+		default:
+			l = 13 + int(next()%uint64(w-12))
+			if i < 9 && next()%2 == 0 {
+				l = i // /0 ... /8: NLRI of 1 and 2 bytes
+			}
+		}
+		hi, lo := next(), next()
+		if l >= 13 {
+			hi = hi&^(uint64(0x1fff)<<51) | uint64(i&0x1fff)<<51 // the index in the top 13 bits keeps prefixes distinct
+		}
+		p := gen.P{V4: v4, Hi: hi, Lo: lo, Len: uint8(l)}.Canon()
+		out = append(out, p)
+	}
+	return out
+}
